@@ -92,6 +92,12 @@ def history_sessions(ctx, n):
             elif rng.random() < 0.08:
                 s.again(t, rng)          # an earlier command of this link (a SETFH after POWEROFF forgot it, ...)
             elif rng.random() < 0.04:
+                # a transceiver tuned to 0 kHz on one side is tuned
+                z = rng.choice(["RXTUNE", "TXTUNE"])
+                o = "TXTUNE" if z == "RXTUNE" else "RXTUNE"
+                for c in ("CMD POWERON", "CMD POWEROFF", "CMD %s 0" % z, "CMD %s %d" % (o, rng.choice(FC.FREQS)), "CMD POWERON"):
+                    s.cmd(t, c)
+            elif rng.random() < 0.04:
                 x = "CMD SETFH %d %d %s" % (rng.randrange(64), rng.randrange(8), " ".join(str(rng.choice(FC.FREQS)) for _ in range(2 * rng.randint(1, 3))))
                 for c in (x, "CMD POWERON", "CMD POWEROFF", x, "CMD POWERON"):
                     s.cmd(t, c)
